@@ -18,6 +18,9 @@ pub struct FnSpec {
     pub after_let: Vec<(String, String)>,
     pub before_if: Vec<(String, String)>,
     pub then_start: Vec<(String, String)>,
+    pub else_start: Vec<(String, String)>,
+    pub arm_start: Vec<(String, String)>,
+    pub before_continue: String,
     pub ret_hint: String,
     pub loops: BTreeMap<usize, String>,
     pub loops_cond: BTreeMap<usize, String>,
@@ -148,6 +151,9 @@ pub fn parse_unit(text: &str) -> Unit {
             s if s.starts_with("after-let ") => spec.after_let.last_mut().unwrap().1.push_str(&l),
             s if s.starts_with("before-if ") => spec.before_if.last_mut().unwrap().1.push_str(&l),
             s if s.starts_with("then-start ") => spec.then_start.last_mut().unwrap().1.push_str(&l),
+            s if s.starts_with("else-start ") => spec.else_start.last_mut().unwrap().1.push_str(&l),
+            s if s.starts_with("arm-start ") => spec.arm_start.last_mut().unwrap().1.push_str(&l),
+            "before-continue" => spec.before_continue.push_str(&l),
             s if s.starts_with("loop-start ") => { let n: usize = s[11..].trim().parse().unwrap(); spec.loop_start.entry(n).or_default().push_str(&l) }
             s if s.starts_with("loop-end ") => { let n: usize = s[9..].trim().parse().unwrap(); spec.loop_end.entry(n).or_default().push_str(&l) }
             s if s.starts_with("loop ") => { let n: usize = s[5..].trim().split_whitespace().next().unwrap().parse().unwrap(); spec.loops.entry(n).or_default().push_str(&l) }
@@ -230,6 +236,9 @@ pub fn parse_unit(text: &str) -> Unit {
             "after-call" => { u.fns.get_mut(cur_fn.as_ref().unwrap()).unwrap().after_call.push((norm(rest), String::new())); section = Some(line.to_string()); }
             "before-if" => { u.fns.get_mut(cur_fn.as_ref().unwrap()).unwrap().before_if.push((norm(rest), String::new())); section = Some(line.to_string()); }
             "then-start" => { u.fns.get_mut(cur_fn.as_ref().unwrap()).unwrap().then_start.push((norm(rest), String::new())); section = Some(line.to_string()); }
+            "else-start" => { u.fns.get_mut(cur_fn.as_ref().unwrap()).unwrap().else_start.push((norm(rest), String::new())); section = Some(line.to_string()); }
+            "arm-start" => { u.fns.get_mut(cur_fn.as_ref().unwrap()).unwrap().arm_start.push((norm(rest), String::new())); section = Some(line.to_string()); }
+            "before-continue" => { section = Some("before-continue".to_string()); }
             "after-let" => { u.fns.get_mut(cur_fn.as_ref().unwrap()).unwrap().after_let.push((norm(rest), String::new())); section = Some(line.to_string()); }
             "outline-expr" => { let (a, b) = rest.split_once("=>").expect("outline-expr A => B"); u.fns.get_mut(cur_fn.as_ref().unwrap()).unwrap().outline_exprs.push((norm(a), b.trim().to_string())); }
             "dead-else" => { let (f, c) = rest.trim().split_once(' ').unwrap(); u.fns.get_mut(cur_fn.as_ref().unwrap()).unwrap().dead_else.push((f.to_string(), norm(c))); }
